@@ -35,6 +35,10 @@ class VirtualClock:
         self.jumps = 0
         # hook called on every time.time() read (fault injection: clock jumps)
         self.on_read = None
+        # fault: a polling loop that sleeps "too long": callable -> number of
+        # EXTRA scheduled events to absorb in one sleep (several completions
+        # become visible at the same poll)
+        self.oversleep = None
 
     # -- event queue ----------------------------------------------------
     def after(self, delay, fn):
@@ -87,6 +91,12 @@ class VirtualClock:
             target = nxt
         self.now = target
         self.run_due()
+        if self.oversleep is not None:
+            extra = self.oversleep()
+            while extra > 0 and self._heap:
+                extra -= 1
+                self.now = max(self.now, self._heap[0][0])
+                self.run_due()
 
     def jump(self, delta):
         """Clock step (NTP style) seen by time.time() only; event times keep
